@@ -15,6 +15,10 @@ CONSTANTS
   AdvArgs <- AdvQ
   SetArgs <- SetQ
   Msgs <- NoMsgs
+  MCFreq = 1
+  Switch <- NoSwitch
+  Rewidth <- NoSwitch
+  Charsets <- NoSwitch
   Depth = 6
 VIEW HView
 PROPERTY PFrameShape
